@@ -284,7 +284,7 @@ EndBetting(C, S) ==
 EffStack(C, S, i) ==
   IF S.street = 0 \/ ~S.alive[i] THEN 0
   ELSE LET tot == SortSeq(FilterIdx([j \in Pl(C) |-> S.bets[j] + S.stacks[j]], LAMBDA j : S.alive[j]), <)
-       IN MinI(S.stacks[i], MaxI(0, tot[Len(tot) - 1] - S.bets[i]))
+       IN IF Len(tot) < 2 THEN 0 ELSE MinI(S.stacks[i], MaxI(0, tot[Len(tot) - 1] - S.bets[i]))
 
 \* who is designated to open the round (before skipping players who cannot act)
 OpenerOf(C, S) ==
@@ -587,6 +587,7 @@ D_Kill(C, S, A) ==
 \* ---- chips pushing
 V_Push(C, S, A) == IF S.subpots # <<>> THEN "ok" ELSE "refuse"
 D_Push(C, S, A) ==
+  IF Live(S) = 0 \/ (Live(S) = 1 /\ S.fpots[Head(S.subpots)[2]].players = <<>>) THEN [S EXCEPT !.fault = "OrphanPot"] ELSE
   LET sp == Head(S.subpots)
       amt == sp[1]
       k == sp[2]
